@@ -644,6 +644,16 @@ func (cs *CondSpace) ExclusiveAtoms(names ...string) {
 	}
 }
 
+// ExactlyOne adds the constraint that exactly one of the named atoms holds (the caller proves the domain is closed).
+func (cs *CondSpace) ExactlyOne(names ...string) {
+	cs.ExclusiveAtoms(names...)
+	any := cs.False()
+	for _, n := range names {
+		any = or(any, cs.Atom(n))
+	}
+	cs.Univ = and(cs.Univ, any)
+}
+
 // EdgeCond is the condition under which control flows along the edge from → from.Succs[si].
 func (cs *CondSpace) EdgeCond(from *ssa.BasicBlock, si int) Bits {
 	in := cs.ReachBlock(from)
